@@ -274,7 +274,7 @@ def main():
         "checks": checks,
         "notes": ("Static analysis only. fix: commits in /repo (genuine defects found by the rules) are listed in known_findings.json as "
                   "'fixed' entries; they are unguarded as the brief requires. The checks were tested both ways: 197 breaking changes written by independent "
-                  "sub-agents (seeded/), 162 hand-written variants (selftest/catalogue.py), random mutation campaigns (tools/mutation_campaign.py), and 63 "
+                  "sub-agents (seeded/), 163 hand-written variants (selftest/catalogue.py), random mutation campaigns (tools/mutation_campaign.py), and 63 "
                   "behaviour-preserving refactorings that must stay silent (benign/). See DESIGN.md section 10."),
         "not_applicable": na,
     }
